@@ -14,6 +14,8 @@
 //   ASMFINAL id | bias | W;W;.. | P;P;.. | predict() | predict(dirty buffer)   trial and the final model; W = serialised learner (as in the
 //   ASMCUT id round rows | W;W;.. | W;W;..                                     the real gboost::result_t::done(round) on fitted learners
 //                                                                              C10 harness), P = its predictions from zero on `ns` samples
+//   STATREC where kind | v,v,.. | 12 stored numbers                          extension stage STATS: a stored record of a real fit + the per-sample
+//                                                                              values recomputed from the stored model (ocaml/c11_stats_driver.ml)
 //   FAIL ...                                                                 direct property violation (independent oracle)
 //   DONE ...
 #include "common.h"
@@ -52,6 +54,7 @@ using vec_t = std::vector<double>;
 
 long g_lines = 0, g_fails = 0, g_es = 0, g_es_stops = 0, g_es_train_exits = 0, g_es_accepts = 0, g_es_waits = 0;
 long g_loops = 0, g_fits = 0, g_fit_checks = 0, g_hist = 0;
+long g_rec_facts = 0, g_rec_every = 1; // extension stage STATS: stored records checked / every how many are printed as STATREC
 
 std::string fl(const vec_t& v)
 {
@@ -640,6 +643,44 @@ void check_stats(const fitctx_t& ctx, const std::string& where, const ml::stats_
     ++g_fit_checks;
     const auto a = stats_of(stored);
     const auto b = stats_of(recomputed, row);
+    // extension stage STATS: the sanity facts a reader can check on the stored record itself (C11_stats_order_facts), on every
+    // stored record of every real fit: count = number of samples, the percentile columns are non-decreasing, the deviation is not
+    // negative; and, when the recomputed per-sample values are comparable, mean and percentiles lie between their min and max
+    {
+        ++g_rec_facts;
+        const auto n = recomputed.size<1>();
+        const std::string rec = where + " " + (row == 0 ? "errors" : "losses") + " ;; " + ctx.what;
+        if (a[2] != static_cast<double>(n)) fail("STATREC stored count " + vh::hexf(a[2]) + " is not the number of samples " + std::to_string(n) + ": " + rec);
+        for (size_t i = 4; i < 12; ++i)
+            if (!std::isnan(a[i - 1]) && !std::isnan(a[i]) && !(a[i - 1] <= a[i]))
+                fail("STATREC stored percentile columns are not ordered: column " + std::to_string(i - 1) + " = " + vh::hexf(a[i - 1]) + " > column " + std::to_string(i) + " = " + vh::hexf(a[i]) + ": " + rec);
+        if (!std::isnan(a[1]) && a[1] < 0.0) fail("STATREC stored deviation " + vh::hexf(a[1]) + " is negative: " + rec);
+        bool finite = n > 0;
+        double mn = 0.0, mx = 0.0;
+        for (tensor_size_t i = 0; i < n; ++i)
+        {
+            const auto x = recomputed(row, i);
+            finite = finite && std::isfinite(x);
+            mn = i == 0 ? x : std::min(mn, x), mx = i == 0 ? x : std::max(mx, x);
+        }
+        if (finite && !(row == 0 && ctx.classification && fragile))
+        {
+            const double tol = 1e-9 * (1.0 + std::max(std::fabs(mn), std::fabs(mx)));
+            for (size_t i = 0; i < 12; ++i)
+                if (i != 1 && i != 2 && !(a[i] >= mn - tol && a[i] <= mx + tol))
+                    fail("STATREC stored column " + std::to_string(i) + " = " + vh::hexf(a[i]) + " is outside [min, max] = [" + vh::hexf(mn) + ", " + vh::hexf(mx) + "] of the per-sample values: " + rec);
+            // ... and the record itself goes to the model (ocaml/c11_stats_driver.ml): the statistics of the per-sample values of the
+            // stored model on exactly the fold's samples, computed by the extracted store_stats
+            if (g_rec_every <= 1 || g_rec_facts % g_rec_every == 0)
+            {
+                std::string vs;
+                for (tensor_size_t i = 0; i < n; ++i) vs += (i ? "," : "") + vh::hexf(recomputed(row, i));
+                std::string rs;
+                for (size_t i = 0; i < 12; ++i) rs += (i ? "," : "") + vh::hexf(a[i]);
+                std::printf("STATREC %s %s | %s | %s\n", where.c_str(), row == 0 ? "errors" : "losses", vs.c_str(), rs.c_str());
+            }
+        }
+    }
     if (row == 0 && ctx.classification && fragile) return;
     static const char* names[12] = {"mean", "stdev", "count", "per01", "per05", "per10", "per20", "per50", "per80", "per90", "per95", "per99"};
     // the deviation is compared on every vector, constant ones included. tensor_t::variance() is the one-pass E[x^2] - mean^2 (clamped
@@ -1448,6 +1489,7 @@ int main(int argc, char** argv)
     const std::string tier = argc > 1 ? argv[1] : "quick";
     const std::string only = argc > 2 ? argv[2] : "all";
     const bool        thorough = tier == "thorough";
+    g_rec_every = thorough ? 12 : 1;
     // NB: consecutive seeds must not give shifted copies of one splitmix stream: hash the seed first
     vh::rng_t boot(vh::env_seed());
     vh::rng_t rng(boot.next() ^ 0xC11C11C11ULL);
@@ -1462,8 +1504,8 @@ int main(int argc, char** argv)
 
     std::printf("DONE lines=%ld fails=%ld es_calls=%ld es_stops=%ld es_train_exits=%ld es_snapshots=%ld es_waits=%ld loops=%ld "
                 "fits=%ld fit_checks=%ld histories=%ld illconditioned_models_skipped=%ld stdev_not_comparable=%ld stdev_nan=%ld stdev_nan_in_fits=%ld "
-                "asm=%ld asm_refits=%ld asm_final_merged=%ld asm_cuts=%ld\n",
+                "asm=%ld asm_refits=%ld asm_final_merged=%ld asm_cuts=%ld stored_records_fact_checked=%ld\n",
                 g_lines, g_fails, g_es, g_es_stops, g_es_train_exits, g_es_accepts, g_es_waits, g_loops, g_fits, g_fit_checks,
-                g_hist, g_ill, g_sd_skipped, g_nan_fails, g_nan_fit_fails, g_asm, g_asm_refits, g_asm_merged, g_asm_cuts);
+                g_hist, g_ill, g_sd_skipped, g_nan_fails, g_nan_fit_fails, g_asm, g_asm_refits, g_asm_merged, g_asm_cuts, g_rec_facts);
     return 0;
 }
